@@ -152,6 +152,13 @@ func (fr *frame) runBlocks() {
 			x.res.MaxLoop = n
 		}
 		if fr.visits[b.Index] > x.unwind {
+			switch x.onUnwind {
+			case 1:
+				x.res.Reach["(cut-at-unwinding-bound)"]++
+				x.end("infeasible", "cut at the unwinding bound (declared benign by the harness)")
+			case 2:
+				x.violation("wedge", x.wedgeMsg+fmt.Sprintf(" (loop in %s did not terminate within %d iterations)", fr.fn, x.unwind), nil)
+			}
 			x.end("unwind", fmt.Sprintf("unwinding bound %d exceeded in %s block %d (%s)", x.unwind, fr.fn, b.Index, b.Comment))
 		}
 		// phis
